@@ -253,24 +253,39 @@ def c04_nontransitive_join(f, replay):
     """C04 open finding: `compatible_content` (the test behind check_join) is symmetric but not transitive.  A replace
     step whose slice is open on both sides can merge a from-side ancestor A with a to-side ancestor B *through* an open
     slice node C (A~C and C~B were checked); the inverse has to split that node again and checks A~B directly, which can
-    fail ("Cannot join B onto A") although the forward step applied.  Upstream algorithm.  Class: a replace step, slice
-    open on both sides, the inverse fails with a join error, and at some depth below the shared depth of the range the
-    from-side and to-side ancestors in the original document have types that are not compatible_content."""
+    fail ("Cannot join B onto A") although the forward step applied.  Upstream algorithm.  Class: a replace step whose
+    inverse fails with a join error and for which the guard of theorem C04.replace_undo is false — `sidesCompatible`
+    (lean/PM/UndoGuard.lean), recomputed here with the real code as harness/props/c04_guard.py ties it: at some depth d
+    with e < d <= e + n (e = depth(from) - openStart, n = nested levels at which the slice is a single node open on both
+    sides) the from-side and to-side ancestors in the original document have types that are not compatible_content."""
     st = replay.get("step") or {}
     if st.get("stepType") != "replace":
         return False
-    sl = st.get("slice") or {}
-    if not sl.get("openStart") or not sl.get("openEnd"):
-        return False
     if "join" not in str(replay.get("detail", "")):
         return False
-    from prosemirror.model import Node
+    from prosemirror.model import Node, Slice
+    from .props.c04_guard import py_guard
     schema = _schema_of(replay)
     doc = Node.from_json(schema, replay.get("culprit_doc") or replay["doc"])
-    rf, rt = doc.resolve(st["from"]), doc.resolve(st["to"])
-    shared = rf.shared_depth(st["to"])
-    for d in range(shared + 1, min(rf.depth, rt.depth) + 1):
-        a, b = rf.node(d).type, rt.node(d).type
-        if not a.compatible_content(b):
-            return True
-    return False
+    sl = Slice.from_json(schema, st.get("slice"))
+    return not py_guard(doc, st["from"], st["to"], sl)[0]
+
+
+def c04_around_text_gap(f, replay):
+    """C04 open finding: the inverse of a replace-around step is rejected with "Content does not fit in gap" when the
+    gap was cut inside a text child of a node that is complete in the removed content and whose content expression does
+    not take two texts in a row: insert_into asks `parent.can_replace(index, index, gap)` at a text-split point, i.e.
+    counts the split text twice.  Upstream insertInto.  Class: a replace-around step whose inverse fails that way and for
+    which the guard `gapFitsBack` of theorem C04.replaceAround_undo is false (recomputed with the real code)."""
+    st = replay.get("step") or {}
+    if st.get("stepType") != "replaceAround":
+        return False
+    if "fit in gap" not in str(replay.get("detail", "")):
+        return False
+    from prosemirror.model import Node
+    from prosemirror.transform import Step
+    from .props.c04_guard import py_around_guards
+    schema = _schema_of(replay)
+    doc = Node.from_json(schema, replay.get("culprit_doc") or replay["doc"])
+    step = Step.from_json(schema, st)
+    return not py_around_guards(doc, step)[0]
